@@ -193,7 +193,7 @@ theorem merge_hom (xs ys : List Val) (hov : NoInt64Overflow (xs ++ ys)) (hnf : N
 
 /-- the full statement is FALSE on the real merge: `SegStats.Merge` keeps the IsNumeric flag of its receiver, so a
 first part holding only text makes the merged statistics non-numeric although the second part has the number 5;
-GetSegSum / GetSegAvg then refuse to answer (structs/segstructs.go:834-869, segstatsreader.go:436, 625). -/
+GetSegSum / GetSegAvg then refuse to answer (structs/segstructs.go:834-869, segstatsreader.go:437, 625). -/
 theorem merge_hom_counterexample :
     ¬ (∀ xs ys : List Val, NoInt64Overflow (xs ++ ys) →
         mergeO exact (foldQ exact xs) (foldQ exact ys) = foldQ exact (xs ++ ys)) := by
@@ -251,7 +251,7 @@ theorem ingest_stats_eq_query_stats (vs : List Val) (h : NoDigitlessForm vs) : f
   exact build_congr _ _ vs (fun s hs => parseFast_eq_parseStd s (h s hs))
 
 /-- the excluded class is real: the single value "-" (45) is a NUMBER (0) for the ingest-time statistics and text for
-the query-time statistics (utils/numutils.go:29-104 accepts an empty digit string; packer.go:1630) -/
+the query-time statistics (utils/numutils.go:29-104 accepts an empty digit string; packer.go:1631) -/
 theorem ingest_stats_counterexample : ¬ (∀ vs : List Val, foldI exact vs = foldQ exact vs) := by
   intro hall
   have h := hall [.str [45]]
@@ -319,6 +319,14 @@ theorem rb_avg_partial (vs : List Val) (h : absIntSum (nums noParse vs) < 922337
   exact ⟨b, hb, by rw [ha, hdense]⟩
 
 example : (nums noParse [.int 1, .flt 2]).length = [Val.int 1, Val.flt 2].length := by decide
+
+/-- merge of group-by buckets (`MergeRunningBuckets`, what joins the per-segment / per-batch buckets of one group): the
+record count and the Sum cell of the merged bucket are those of the unsplit list, for every split of every list — so
+sum, count and the (record-count) average of a group do not depend on the segmentation -/
+theorem rb_merge_hom_count_sum (xs ys : List Val) (h : absIntSum (nums noParse (xs ++ ys)) < 9223372036854775808) :
+    (mergeRB exact (foldRB exact xs) (foldRB exact ys)).map (fun b => (b.n, b.sum)) =
+      (foldRB exact (xs ++ ys)).map (fun b => (b.n, b.sum)) :=
+  mergeRB_n_sum xs ys h
 
 /-- the group-by bucket's min / max over a measure field of mixed type depend on the ORDER of the events: once the cell
 holds a string, `sutils.Reduce` rejects every number (aggutils.go:27-87 returns an error for a string e1, ProcessReduce
